@@ -22,6 +22,9 @@ fn main() {
             match suite {
                 "C12" => suites::c12::gen(tier, seed, &mut emit),
                 "C15" => suites::c15::gen(tier, seed, &mut emit),
+                "C04" => suites::c04::gen(tier, seed, &mut emit),
+                "C16" => suites::c16::gen(tier, seed, &mut emit),
+                "C17" => suites::c17::gen(tier, seed, &mut emit),
                 "SMOKE" => suites::streams::gen_smoke(tier, seed, &mut emit),
                 "C13" => suites::c13::gen(tier, seed, &mut emit),
                 "C14" => suites::c14::gen(tier, seed, &mut emit),
